@@ -405,12 +405,12 @@ class C20Stats(EnumCheck):
         return len(c) > 1
 
 
-CLASSES = ("successful", "failed1", "failed2", "canceled", "missing")
+CLASSES = ("successful", "failed1", "failed2", "failedsig", "canceled", "missing")  # failedsig: killed by a signal, return code -9
 
 
 @register("c20_tallies")
 class C20Tallies(EnumCheck):
-    """Every result set over {successful, failed(1), failed(2), canceled, missing}^n, n <= 4,
+    """Every result set over {successful, failed(1), failed(2), failed(-9: killed by a signal), canceled, missing}^n, n <= 4,
     through the real completion code (results summary) and ResultsSummary."""
 
     def cases(self):
@@ -454,6 +454,8 @@ class C20Tallies(EnumCheck):
                 r = Result(f"j{i}", 1, JobCompletionStatus.FINISHED, 1.0, hpc_job_id="7")
             elif cl == "failed2":
                 r = Result(f"j{i}", 2, JobCompletionStatus.FINISHED, 1.0, hpc_job_id="7")
+            elif cl == "failedsig":
+                r = Result(f"j{i}", -9, JobCompletionStatus.FINISHED, 1.0, hpc_job_id="7")
             else:
                 r = Result(f"j{i}", 1, JobCompletionStatus.CANCELED, 0.0, hpc_job_id=None)
             agg.append_result(r)
